@@ -29,64 +29,59 @@ func checkC16(c *Ctx) {
 func r161(c *Ctx) {
 	const rule = "R16.1b redirect-and-refusal-conditions"
 	c.floor(rule, 3)
-	sr := c.method("Service", "shouldRedirectToHTTPS")
 	tlsEn, tlsRe := c.field("ServiceOptions", "TLSEnabled"), c.field("ServiceOptions", "TLSRedirect")
-	okAll := true
-	nTrue := 0
-	for _, ret := range normalReturns(sr) {
-		v := retVal(ret, 0)
-		srcs := []struct {
-			v ssa.Value
-			b *ssa.BasicBlock
-		}{}
-		if phi, ok := v.(*ssa.Phi); ok {
-			for i, e := range phi.Edges {
-				srcs = append(srcs, struct {
-					v ssa.Value
-					b *ssa.BasicBlock
-				}{e, phi.Block().Preds[i]})
-			}
-		} else {
-			srcs = append(srcs, struct {
-				v ssa.Value
-				b *ssa.BasicBlock
-			}{v, ret.Block()})
+	fn, site := c.redirectSite(rule)
+	if site == nil {
+		return
+	}
+	// at the redirect: TLSEnabled, TLSRedirect, r.TLS == nil - and nothing else
+	en, _ := boolFacts(site, matchFieldLoad(tlsEn))
+	re, _ := boolFacts(site, matchFieldLoad(tlsRe))
+	plain, extra := false, 0
+	for _, ce := range dominatingConds(site.Block()) {
+		if _, isPhi := ce.cond.(*ssa.Phi); isPhi && ce.taken {
+			continue // the merged conjunction, known true: its operands are listed separately
 		}
-		for _, s := range srcs {
-			if b, isC := constBool(s.v); isC && !b {
+		v := ce.cond
+		if u, ok := v.(*ssa.UnOp); ok && u.Op == token.NOT {
+			v = u.X
+		}
+		if isLoadOfField(v, tlsEn) || isLoadOfField(v, tlsRe) {
+			continue
+		}
+		if cm, ok := ce.asCmp(); ok && isNilConst(cm.y) {
+			if f, base, ok := fieldLoad(cm.x); ok && f.Name() == "TLS" && resolve(base) == ssa.Value(fn.Params[2]) {
+				if cm.op == token.EQL {
+					plain = true
+				}
 				continue
 			}
-			bo, ok := s.v.(*ssa.BinOp)
-			if !ok || bo.Op != token.EQL || !isNilConst(bo.Y) {
-				okAll = false
-				continue
-			}
-			if f, base, ok := fieldLoad(bo.X); !ok || f.Name() != "TLS" || base != ssa.Value(sr.Params[1]) {
-				okAll = false
-				continue
-			}
-			nTrue++
-			var en, re bool
-			blk := bo.Block()
-			conds := dominatingConds(blk)
-			for _, ce := range conds {
-				if !ce.taken {
-					continue
-				}
-				if isLoadOfField(ce.cond, tlsEn) {
-					en = true
-				}
-				if isLoadOfField(ce.cond, tlsRe) {
-					re = true
+		}
+		extra++
+	}
+	c.ob(rule, "shouldRedirectToHTTPS/TLSEnabled&&TLSRedirect&&plain-HTTP", site.Pos(), en && re && plain && extra == 0, true, "redirect exactly when the service has TLS and redirect on and the request arrived without TLS")
+	// ... and whenever they hold: from the branch taken under those conditions every path performs the redirect
+	for _, b := range fn.Blocks {
+		if len(b.Instrs) == 0 || !b.Dominates(site.Block()) {
+			continue
+		}
+		conds := dominatingConds(b)
+		e2, _ := boolFactsOf(conds, matchFieldLoad(tlsEn))
+		r2, _ := boolFactsOf(conds, matchFieldLoad(tlsRe))
+		p2 := false
+		for _, ce := range conds {
+			if cm, ok := ce.asCmp(); ok && cm.op == token.EQL && isNilConst(cm.y) {
+				if f, _, ok := fieldLoad(cm.x); ok && f.Name() == "TLS" {
+					p2 = true
 				}
 			}
-			if !en || !re || len(conds) != 2 {
-				okAll = false
-			}
+		}
+		if e2 && r2 && p2 {
+			_, skips := reach(fn, b.Instrs[0], isReturn, func(in ssa.Instruction) bool { return in == ssa.Instruction(site) })
+			c.ob(rule, "serviceRequestWithTarget/redirect-whenever-conditions-hold", b.Instrs[0].Pos(), !skips || b == site.Block(), true, "")
+			break
 		}
 	}
-	c.ob(rule, "shouldRedirectToHTTPS/TLSEnabled&&TLSRedirect&&plain-HTTP", sr.Pos(), okAll && nTrue == 1, true, "redirect exactly when the service has TLS and redirect on and the request arrived without TLS")
-	fn := c.method("Service", "serviceRequestWithTarget")
 	for _, s := range c.errorSites() {
 		if s.fn != fn || s.via != "SetErrorResponse" {
 			continue
@@ -94,7 +89,19 @@ func r161(c *Ctx) {
 		var notEnabled, overTLS bool
 		n := 0
 		for _, ce := range dominatingConds(s.instr.Block()) {
-			if call, ok := ce.cond.(*ssa.Call); ok && isCallTo(call.Common(), sr) {
+			// (the redirect test, passed on the way here, contributes its own negative facts: not counted)
+			if _, isPhi := ce.cond.(*ssa.Phi); isPhi {
+				continue
+			}
+			if isLoadOfField(ce.cond, tlsRe) {
+				continue
+			}
+			if cm, ok := ce.asCmp(); ok && cm.op == token.EQL && isNilConst(cm.y) {
+				if f, _, ok := fieldLoad(cm.x); ok && f.Name() == "TLS" {
+					continue
+				}
+			}
+			if isLoadOfField(ce.cond, tlsEn) && ce.taken {
 				continue
 			}
 			n++
@@ -109,17 +116,14 @@ func r161(c *Ctx) {
 		}
 		c.ob(rule, "serviceRequestWithTarget/503-iff-TLS-request-to-non-TLS-service", s.instr.Pos(), s.status == 503 && notEnabled && overTLS && n == 2, true, "")
 	}
-	// redirect call is made with the same writer/request and ends the request (r073 checks ordering)
-	rd := c.method("Service", "redirectToHTTPS")
-	okR := false
-	for _, cs := range callsTo(fn, rd) {
-		if cs.common().Args[1] == ssa.Value(fn.Params[1]) && cs.common().Args[2] == ssa.Value(fn.Params[2]) {
-			_, cont := reach(fn, cs.instr, func(in ssa.Instruction) bool {
-				ci, ok := in.(ssa.CallInstruction)
-				return ok && ci.Common().StaticCallee() != nil && ci.Common().StaticCallee().Name() == "loadBalancerForRequest"
-			}, nil)
-			okR = !cont
-		}
+	// the redirect is made with the handler's own writer and request and ends the request
+	okR := resolve(site.Call.Args[0]) == ssa.Value(fn.Params[1]) && resolve(site.Call.Args[1]) == ssa.Value(fn.Params[2])
+	if okR {
+		_, cont := reach(fn, site, func(in ssa.Instruction) bool {
+			ci, ok := in.(ssa.CallInstruction)
+			return ok && ci.Common().StaticCallee() != nil && ci.Common().StaticCallee().Name() == "loadBalancerForRequest"
+		}, nil)
+		okR = !cont
 	}
 	c.ob(rule, "serviceRequestWithTarget/redirect-never-forwards", fn.Pos(), okR, true, "")
 }
@@ -127,20 +131,17 @@ func r161(c *Ctx) {
 func r162(c *Ctx) {
 	const rule = "R16.2 redirect-target"
 	c.floor(rule, 3)
-	rd := c.method("Service", "redirectToHTTPS")
-	cs := callsToName(rd, "net/http.Redirect")
-	if len(cs) != 1 {
-		c.undecided(rule, "redirectToHTTPS/shape", rd.Pos(), fmt.Sprintf("expected one http.Redirect, found %d", len(cs)))
+	rd, call := c.redirectSite(rule)
+	if call == nil {
 		return
 	}
-	call := cs[0].instr.(*ssa.Call)
 	st, _ := constInt(call.Call.Args[3])
 	c.ob(rule, "redirectToHTTPS/status-301", call.Pos(), st == 301, true, "")
 	// url = ("https://" + host) + r.URL.RequestURI()
 	okURL, okHost := false, false
 	if outerAdd, ok := call.Call.Args[2].(*ssa.BinOp); ok && outerAdd.Op == token.ADD {
 		if ru, ok := outerAdd.Y.(*ssa.Call); ok && calleeName(ru.Common()) == "(*net/url.URL).RequestURI" {
-			if f, base, ok := fieldLoad(ru.Call.Args[0]); ok && f.Name() == "URL" && base == ssa.Value(rd.Params[2]) {
+			if f, base, ok := fieldLoad(ru.Call.Args[0]); ok && f.Name() == "URL" && resolve(base) == ssa.Value(rd.Params[2]) {
 				if inner, ok := outerAdd.X.(*ssa.BinOp); ok && inner.Op == token.ADD {
 					if s, ok := constString(inner.X); ok && s == "https://" {
 						okURL = true
@@ -151,14 +152,14 @@ func r162(c *Ctx) {
 						for _, src := range phiSources(inner.Y) {
 							if e, ok := src.(*ssa.Extract); ok && e.Index == 0 {
 								if scall, ok := e.Tuple.(*ssa.Call); ok && calleeName(scall.Common()) == "net.SplitHostPort" {
-									if f, base, ok := fieldLoad(scall.Call.Args[0]); ok && f.Name() == "Host" && base == ssa.Value(rd.Params[2]) {
+									if f, base, ok := fieldLoad(scall.Call.Args[0]); ok && f.Name() == "Host" && resolve(base) == ssa.Value(rd.Params[2]) {
 										sawSplit = true
 										sp = scall
 										continue
 									}
 								}
 							}
-							if f, base, ok := fieldLoad(src); ok && f.Name() == "Host" && base == ssa.Value(rd.Params[2]) {
+							if f, base, ok := fieldLoad(src); ok && f.Name() == "Host" && resolve(base) == ssa.Value(rd.Params[2]) {
 								sawRaw = true
 								continue
 							}
@@ -561,4 +562,17 @@ func fieldIndex(t types.Type, f *types.Var) int {
 		}
 	}
 	return 0
+}
+
+// redirectSite: the http.Redirect call of the service handler (the redirect helpers of the reference tree,
+// shouldRedirectToHTTPS and redirectToHTTPS, are de-anchored: always expanded into serviceRequestWithTarget).
+func (c *Ctx) redirectSite(rule string) (*ssa.Function, *ssa.Call) {
+	fn := c.method("Service", "serviceRequestWithTarget")
+	cs := callsToName(fn, "net/http.Redirect")
+	if len(cs) != 1 {
+		c.undecided(rule, "serviceRequestWithTarget/redirect-site", fn.Pos(), fmt.Sprintf("expected one http.Redirect in the service handler, found %d", len(cs)))
+		return fn, nil
+	}
+	call, _ := cs[0].instr.(*ssa.Call)
+	return fn, call
 }
